@@ -34,6 +34,17 @@ RATIO, OVERLAP, TAPER = 12, 576, 144
 EDGE = 2 * TAPER          # "away from the two file edges": more than 2*taper AP samples (what the code discards at seams)
 LSB_BOUND = 1.0           # the property's stated bound
 APNAME = "_spikeglx_ephysData_g0_t0.imec0.ap.bin"
+UUID = "4f1e2a3b-5c6d-4e7f-8a9b-0c1d2e3f4a5b"      # a v4 UUID, the server naming spikeglx.Reader supports
+
+
+def ap_name(rec):
+    """file name of the AP binary as first written (flat)"""
+    return (rec.get("stem") or APNAME[:-len(".ap.bin")]) + ".ap" + (("." + UUID) if rec.get("uuid") else "") + ".bin"
+
+
+def file_digest(path):
+    import hashlib
+    return hashlib.sha1(Path(path).read_bytes()).hexdigest()
 
 
 def cdiv(a, b):
@@ -111,7 +122,7 @@ def make_recording(root, rec):
     rng = np.random.default_rng(rec["seed"])
     d = Path(root) / "probe00"
     d.mkdir(parents=True)
-    ap = d / APNAME
+    ap = d / ap_name(rec)
     nap = rec.get("nap") or 384          # AP channels saved to disk (SpikeGLX "save channel subset": the first nap)
     x = make_content(rng, ns, rec["content"])[:, :nap]
     pos = np.arange(ns, dtype=np.int64)
@@ -139,6 +150,14 @@ def make_recording(root, rec):
         meta = re.sub(r"snsApLfSy=\S+", "snsApLfSy=%d,0,1" % nap, meta)
         meta = re.sub(r"snsSaveChanSubset=\S+", "snsSaveChanSubset=0:%d,384" % (nap - 1), meta)
     ap.with_suffix(".meta").write_text(meta)
+    if rec.get("ap_cbin"):
+        # the state the converter itself leaves NP2.1 recordings in: X.ap.cbin + X.ap.ch + X.ap.meta
+        import spikeglx
+        sr = spikeglx.Reader(ap, sort=False)
+        try:
+            ap = Path(sr.compress_file(keep_original=False))
+        finally:
+            sr.close()
     return ap, dat
 
 
@@ -147,7 +166,7 @@ def make_recording(root, rec):
 # --------------------------------------------------------------------------
 REC_KEYS = ("kind", "ns", "content", "shankmap", "fs", "seed", "sync_off", "sync_mul", "nshank",
             "reuse", "nsamples", "offset", "strpath", "floatw", "compress", "nap",
-            "prb_type", "extra_none", "post_check", "no_assert_shanks", "overwrite_default")
+            "prb_type", "extra_none", "post_check", "no_assert_shanks", "overwrite_default", "ap_cbin", "uuid", "stem")
 
 
 def rec_n(rec):
@@ -201,6 +220,7 @@ def impl_convert_inner(ap, W, extra, rec, state, iw=0):
         out["shanks"] = [int(s) for s in cm["shank"]]
         out["version"] = {"NP2.1": 21, "NP2.4": 24}.get(spikeglx._get_neuropixel_version_from_meta(m), 0)
         out["prb_type"] = int(m["imDatPrb_type"])
+        out["ap_file_name"] = Path(ap).name
         if conv is None:
             conv = NP2Converter(str(ap) if rec.get("strpath") else ap, post_check=bool(rec.get("post_check")),
                                 compress=bool(rec.get("compress")))
@@ -222,7 +242,7 @@ def impl_convert_inner(ap, W, extra, rec, state, iw=0):
             return out
         for sh, info in conv.shank_info.items():
             f = Path(info["lf_file"])
-            fo = {"sh": int(sh[5:]), "chns": [int(c) for c in info["chns"]], "path": str(f)}
+            fo = {"sh": int(sh[5:]), "chns": [int(c) for c in info["chns"]], "path": str(f), "name": f.name}
             md = spikeglx.read_meta_data(f.with_suffix(".meta"))
             fo["meta"] = {"acq": [int(v) for v in md["acqApLfSy"]], "sns": [int(v) for v in md["snsApLfSy"]],
                           "nsaved": int(md["nSavedChans"]), "fsize": int(md["fileSizeBytes"]),
@@ -433,7 +453,9 @@ def enc_input(rec, W, obs, shs):
     nshank = [int(v) for v in (rec["nshank"] or [])]
     return [rec["ns"], rec.get("nsamples") or 0, rec.get("offset") or 0, 0 if W == 60000 else W, obs["prb_type"],
             meta_ns_of(am), nominal, with_cols(obs), 0 if rec.get("no_assert_shanks") else 1] + am["acq"] + am["sns"] + \
-        [am["nsaved"], am["fsize"], am["rate"], am["subset_hi"], len(nshank)] + nshank + obs["shanks"]
+        [am["nsaved"], am["fsize"], am["rate"], am["subset_hi"], len(nshank)] + nshank + \
+        [1 if obs.get("ap_file_name", "").endswith(".cbin") else 0, len(obs.get("ap_file_name", ""))] + \
+        [ord(c) for c in obs.get("ap_file_name", "")] + obs["shanks"]
 
 
 def enc_output(rec, obs):
@@ -458,6 +480,8 @@ def enc_output(rec, obs):
                 1 if rd["type"] == "lf" else 0, rd["nsync"], rd["ns"], 1 if rd["fudged"] else 0]
         src = fo.get("col_sources") if with_cols(obs) else []
         out += [len(src)] + [v for kc in src for v in kc]
+        nm = fo["name"][:-len(".cbin")] + ".bin" if fo["name"].endswith(".cbin") else fo["name"]   # compress=True
+        out += [len(nm)] + [ord(c) for c in nm]
     return out
 
 
@@ -513,7 +537,7 @@ def gen_recordings(ctx):
              "windows": windows, "nshank": nshank,
              "reuse": False, "nsamples": None, "offset": None, "strpath": False, "floatw": False, "compress": False,
              "nap": None, "prb_type": None, "extra_none": False, "post_check": False, "no_assert_shanks": False,
-             "overwrite_default": False}
+             "overwrite_default": False, "ap_cbin": False, "uuid": False, "stem": None}
         r.update(opt)
         recs.append(r)
 
@@ -597,6 +621,14 @@ def gen_recordings(ctx):
         ns = rng.randrange(1400, 2600)
         rec(kind, ns + (ns % 12 == 0), contents[(i + 1) % len(contents)], smap, "30000" if i % 2 else "29999.757983",
             [rng.choice([588, 612]), 1200], nap=nap, reuse=(i == 1))
+    # (b5) AP streams given as .ap.cbin (+ .ch) -- the state the converter leaves NP2.1 files in -- and UUID names
+    rec("NP21", rng.randrange(1300, 2300), "walk", "fixture", "30000", [600, 1200], ap_cbin=True, overwrite_default=True,
+        nap=64)
+    rec("NP21", rng.randrange(1300, 2300), "tones", "fixture", "29999.757983", [612], ap_cbin=True, uuid=True,
+        stem="snapshot_g0_t0.imec0", overwrite_default=True, nap=64, reuse=True)
+    rec("NP24", rng.randrange(1300, 2300), "noise", "fixture", "30000", [588], ap_cbin=True, nap=96, overwrite_default=True)
+    rec("NP24", rng.randrange(1300, 2300), "steps", "fixture", "30000", [1200], uuid=True, stem="capture.imec0", nap=96)
+    rec("NP21", rng.randrange(1300, 2300), "impulses", "fixture", "30000", [600], uuid=True, overwrite_default=True, nap=64)
     # (b4) probe types: not NP2 (status -1, nothing written); a 4-shank map declared NP2.1 (assert); a single-shank
     #      map declared NP2.4 (one shank folder); nshank subset with repeated conversions
     rec("NP21", rng.randrange(700, 1500), "walk", "fixture", "30000", [600], prb_type=0)
@@ -629,7 +661,22 @@ def run_group(ctx, rec, tmp, cases, meas, dist):
             desc["run_index"] = iw if rec.get("reuse") else 0
             if rec.get("reuse"):
                 desc["windows_before"] = rec["windows"][:iw]
+            ap_dir = Path(ap).parent
+            before = {q.name: file_digest(q) for q in sorted(ap_dir.iterdir()) if q.is_file() and ".lf." not in q.name} \
+                if iw == 0 or not rec.get("reuse") or "ap_before" not in state else state["ap_before"]
+            state["ap_before"] = before
             obs = impl_convert(ap, W, "_w%d" % iw, rec, state, iw)
+            if not (rec.get("compress") and rec["kind"] == "NP21"):     # compress=True compresses an NP2.1 original itself
+                after = {q.name: file_digest(q) for q in sorted(ap_dir.iterdir()) if q.is_file() and q.name in before}
+                changed = sorted(k for k in before if after.get(k) != before[k])
+                if changed:
+                    ctx.fail("the conversion modified or removed the original file(s) %s" % changed, desc, {"kind": "ap_modified"})
+            for fo in obs.get("files", []):
+                if fo.get("name") in before and Path(fo["path"]).parent == ap_dir:
+                    ctx.fail("the LF stream was written into %s, a file of the AP recording" % fo["name"], desc,
+                             {"kind": "lf_aliases_ap"})
+                elif ".lf." not in fo.get("name", ""):
+                    ctx.fail("the LF output %r is not an *.lf.* file" % fo.get("name"), desc, {"kind": "lf_name"})
             admissible = W % RATIO == 0 and W > OVERLAP
             dist["conversions"] += 1
             dist[rec["kind"]] += 1
@@ -765,6 +812,8 @@ def run(ctx):
     dist["commercial_probe_types"] = sum(1 for c in cases if c["desc"].get("prb_type") in (1030, 2013))
     dist["post_check_true"] = sum(1 for c in cases if c["desc"].get("post_check"))
     dist["default_overwrite_and_extra"] = sum(1 for c in cases if c["desc"].get("overwrite_default") or c["desc"].get("extra_none"))
+    dist["ap_given_as_cbin"] = sum(1 for c in cases if c["desc"].get("ap_cbin"))
+    dist["uuid_names"] = sum(1 for c in cases if c["desc"].get("uuid"))
     dist["compress_true"] = sum(1 for c in cases if c["desc"]["compress"])
     dist["str_path"] = sum(1 for c in cases if c["desc"]["strpath"])
     dist["float_window"] = sum(1 for c in cases if c["desc"]["floatw"])
